@@ -104,7 +104,7 @@ def oracle(rd_out, ard_out):
     return None
 
 
-def run(chk, replay=None):
+def run_prim(chk, replay=None):
     gate, hb = core.std_setup(chk)
     rng = random.Random(chk.seed)
     n = 9000 if chk.tier == "quick" else 200000
@@ -159,3 +159,16 @@ def run(chk, replay=None):
                           dict(kind="proof", theorem_file="coq/Properties/C12.v", failed=gate.get("failed"),
                                error=gate.get("error"), theorems=gate["theorems"]), no_input=True)
     return chk.finish()
+
+
+def run(chk, replay=None):
+    """primitive level (value interpreter over the runtime API) + generated-code level (code emitted by the real
+    pilota-build, gen family); a replay file belongs to exactly one of them"""
+    from .. import genextra
+    is_gen = replay is not None and isinstance(replay.get("case"), dict)
+    parts = []
+    if replay is None or not is_gen:
+        parts.append(("primitive", lambda c: run_prim(c, replay)))
+    if replay is None or is_gen:
+        parts.append(("generated", lambda c: genextra.run_c12g(c, replay, prop="C12")))
+    return chk.run_parts(parts)
